@@ -158,6 +158,11 @@ func C17(c *run.Ctx) {
 				f.Set("request_uri", effPrefix+"abc")
 				return world.Basic("conf-a", "secret-of-a")
 			}},
+			{"contains-request_uri-behind-an-empty-one", func(f url.Values) world.Auth {
+				// the parameter occurs twice: an empty value first, a request_uri second
+				f["request_uri"] = []string{"", effPrefix + "abc"}
+				return world.Basic("conf-a", "secret-of-a")
+			}},
 			{"contains-foreign-request_uri", func(f url.Values) world.Auth {
 				f.Set("request_uri", "https://client.example/ro.jwt")
 				return world.Basic("conf-a", "secret-of-a")
